@@ -6,8 +6,12 @@ kind per request it receives, then play-phase events.  Core Lean only.
 -/
 namespace IpcHub.Pull
 
+/-- the method of a request together with what it is addressed to: OPTIONS / DESCRIBE / PLAY go to the
+    route URL (`newRequest(method, c.url)`), a SETUP goes to the control URL of the video (`audio = false`)
+    or of the audio section, resolved against the route URL (`getSetupURL`), with the Transport header
+    asking for the TCP interleaved channel pair of that track -/
 inductive Method where
-  | options | describe | setup | play
+  | options | describe | setup (audio : Bool) | play
   deriving DecidableEq, Repr
 
 inductive Auth where
@@ -57,6 +61,10 @@ structure Facts where
   setupUrlSafe : Bool
   /-- Open's deferred cleanup also runs (and turns the panic into an error) when the body panics -/
   openRecovers : Bool
+  /-- requestPlay builds the media.Stream (whose constructor starts the conversion workers) only after
+      the PLAY request was answered with success, immediately before `go playStream()`: a failed Open
+      never leaves a stream behind (Open's cleanup drops `c.stream`, it does not close it) -/
+  streamAfterPlay : Bool
   deriving DecidableEq, Repr
 
 structure Cfg where
@@ -194,16 +202,23 @@ def finish (_f : Facts) (st : Step) (reqs : List Req) (rest : List Resp) : OpenR
   | .hang => { outcome := .hang, reqs := reqs, effects := [.dial], rest := rest }
   | _ => { outcome := .notFound, reqs := reqs, effects := [.dial, .closeConn], rest := rest }
 
+/-- the PLAY step failed although the stream had been built before the request was sent
+    (`streamAfterPlay = false`): Open's cleanup closes the connection and drops the stream unclosed -/
+def finishEarlyStream (st : Step) (reqs : List Req) (rest : List Resp) : OpenResult :=
+  match st with
+  | .hang => { outcome := .hang, reqs := reqs, effects := [.dial, .newStream], rest := rest }
+  | _ => { outcome := .notFound, reqs := reqs, effects := [.dial, .newStream, .closeConn], rest := rest }
+
 def panicResult (f : Facts) (reqs : List Req) (rest : List Resp) : OpenResult :=
   if f.openRecovers then { outcome := .notFound, reqs := reqs, effects := [.dial, .closeConn], rest := rest }
   else { outcome := .panic, reqs := reqs, effects := [.dial], rest := rest }
 
 /-- one SETUP (video or audio section), if that section has a control attribute -/
-def setupStep (f : Facts) (cfg : Cfg) (wanted absolute : Bool) (c : Client) (script : List Resp) :
+def setupStep (f : Facts) (cfg : Cfg) (wanted absolute : Bool) (aud : Bool) (c : Client) (script : List Resp) :
     Except Unit (Step × List Req × List Resp) :=
   if !wanted then .ok (.ok c, [], script)
   else if !absolute && !cfg.urlPath && !f.setupUrlSafe then .error ()      -- setupURL.Path[len(Path)-1] on ""
-  else .ok (requestWithResponse f cfg.hasUser c .setup script)
+  else .ok (requestWithResponse f cfg.hasUser c (.setup aud) script)
 
 /-- PullClient.Open (through pullStreamFactory.Create) -/
 def openPull (f : Facts) (cfg : Cfg) (script : List Resp) : OpenResult :=
@@ -217,16 +232,18 @@ def openPull (f : Facts) (cfg : Cfg) (script : List Resp) : OpenResult :=
       | .bad => finish f .fail (q0 ++ q1) s1
       | .noFormat => if f.formatGuard then finish f .fail (q0 ++ q1) s1 else panicResult f (q0 ++ q1) s1
       | .tracks v a abs =>
-        match setupStep f cfg v abs c s1 with                                    -- requestSetup, video
+        match setupStep f cfg v abs false c s1 with                                    -- requestSetup, video
         | .error _ => panicResult f (q0 ++ q1) s1
         | .ok (.ok c, q2, s2) =>
-          match setupStep f cfg a abs c s2 with                                  -- requestSetup, audio
+          match setupStep f cfg a abs true c s2 with                                  -- requestSetup, audio
           | .error _ => panicResult f (q0 ++ q1 ++ q2) s2
           | .ok (.ok c, q3, s3) =>
             match requestWithResponse f cfg.hasUser c .play s3 with              -- requestPlay
             | (.ok _, q4, s4) =>
               { outcome := .stream, reqs := q0 ++ q1 ++ q2 ++ q3 ++ q4, effects := [.dial, .newStream], rest := s4 }
-            | (st, q4, s4) => finish f st (q0 ++ q1 ++ q2 ++ q3 ++ q4) s4
+            | (st, q4, s4) =>
+              if f.streamAfterPlay then finish f st (q0 ++ q1 ++ q2 ++ q3 ++ q4) s4
+              else finishEarlyStream st (q0 ++ q1 ++ q2 ++ q3 ++ q4) s4
           | .ok (st, q3, s3) => finish f st (q0 ++ q1 ++ q2 ++ q3) s3
         | .ok (st, q2, s2) => finish f st (q0 ++ q1 ++ q2) s2
     | (st, q1, s1) => finish f st (q0 ++ q1) s1
@@ -265,5 +282,51 @@ def playStream (evs : List PlayEv) : Option (List PlayEffect) :=
   match playLoop evs false [.regist, .connAdd] with
   | none => none
   | some acc => some (acc ++ [.connRelease, .unregist, .closeConn])
+
+/-! ### the world a pull acts on — what it must leave as it found it -/
+
+structure World where
+  /-- open connections to the camera -/
+  conns : Int
+  /-- a stream is registered under the requested path -/
+  registered : Bool
+  /-- stats.RtspConns -/
+  counter : Int
+  /-- streams built and not closed (their conversion workers and consumers are alive) -/
+  streams : Int
+  /-- how often the camera was dialled -/
+  dials : Nat
+  deriving DecidableEq, Repr
+
+def World.init : World := { conns := 0, registered := false, counter := 0, streams := 0, dials := 0 }
+
+def applyOpen (w : World) : Effect → World
+  | .dial => { w with conns := w.conns + 1, dials := w.dials + 1 }
+  | .closeConn => { w with conns := w.conns - 1 }
+  | .newStream => { w with streams := w.streams + 1 }
+
+def applyPlay (w : World) : PlayEffect → World
+  | .regist => { w with registered := true }
+  | .connAdd => { w with counter := w.counter + 1 }
+  | .connRelease => { w with counter := w.counter - 1 }
+  | .unregist => { w with registered := false, streams := w.streams - 1 }   -- media.Unregist: delete, then s.Close() (C05; consumers: C03)
+  | .closeConn => { w with conns := w.conns - 1 }
+  | .deliver => w
+  | .keepAlive => w
+
+/-- media.GetOrCreate for the routed path in world `w` against a camera that answers every connection
+    by `script` and then behaves as `evs`: a registered stream serves the request (no pull); otherwise
+    route.Match → factory Create → a NEW PullClient → Open, and on success playStream -/
+def getOrCreate (f : Facts) (cfg : Cfg) (script : List Resp) (evs : List PlayEv) (w : World) : World × Outcome :=
+  if w.registered then (w, .stream)
+  else
+    let r := openPull f cfg script
+    let w1 := r.effects.foldl applyOpen w
+    match r.outcome with
+    | .stream =>
+      match playStream evs with
+      | some eff => (eff.foldl applyPlay w1, .stream)
+      | none => (([PlayEffect.regist, .connAdd]).foldl applyPlay w1, .stream)    -- still playing
+    | o => (w1, o)
 
 end IpcHub.Pull
